@@ -384,31 +384,34 @@ def rule_totp(ctx):
     expect(ctx, "TOTP = zero-padded 6 digits of (dynamic truncation of HMAC-SHA1(base32 secret, 8-byte big-endian floor(time/30)+offset) & 0x7fffffff) mod 10^6 (RFC 6238 / 4226 5.3)",
            rets[0].term, ref, ct.loc())
     ck = p.func(f"{AUTH}.check_totp")
-    te2 = TermEval(p, ck, inline=lambda c, f: None).run()
-    trues, falses, others = [], [], []
-    for o in te2.outcomes:
-        if o.kind == "return" and o.term == C(True):
-            trues.append(o)
-        elif o.kind == "return" and o.term == C(False):
-            falses.append(o)
-        else:
-            others.append(o)
-    offs = []
-    ok_guard = True
-    for o in trues:
-        eq = [c for c, pol in o.conds if c[0] == "cmp" and c[1] == "==" and pol]
-        good = False
-        for c in eq:
-            sides = [c[2], c[3]]
-            calls = [s for s in sides if s[0] == "call" and s[1] == ("g", "compute_totp")]
-            tick = [s for s in sides if s == P("ticket")]
-            if calls and tick and calls[0][2][0] == P("secret") and calls[0][2][1][0] == "c":
-                offs.append(calls[0][2][1][1])
-                good = True
-        ok_guard &= good
-    ctx.ob("check_totp accepts only a ticket equal to compute_totp(secret, offset)", bool(trues) and ok_guard, "an accepting path is not guarded by equality with the computed code", ck.loc())
-    ctx.ob("check_totp looks at the current and the two adjacent time steps only", sorted(offs) == [-1, 0, 1], f"offsets {sorted(offs)}", ck.loc())
-    ctx.ob("check_totp rejects everything else", len(falses) == 1 and not others and not falses[0].conds[-1:] == [], f"{len(falses)} rejecting returns, {len(others)} other outcomes", ck.loc())
+    ctx.analysed(ck)
+    # cell-wise: the ticket is the code of time step 0, +1, -1, +2, -2 or something else; accepted iff it is one of the first three
+    from ..core.tiny import Tiny, Sym
+    codes = {}
+
+    def default(f_, a_, k_=None):
+        if f_ == "compute_totp":
+            off = a_[1] if len(a_) > 1 else (k_ or {}).get("offset", 0)
+            return codes.setdefault(off, Sym(f"code({off})"))
+        return Sym(f"<{f_}>")
+    probs = []
+    asked = set()
+    try:
+        for which in (0, 1, -1, 2, -2, "other"):
+            codes.clear()
+            for off in (0, 1, -1, 2, -2):
+                codes[off] = Sym(f"code({off})")
+            ticket = codes[which] if which != "other" else Sym("some other ticket")
+            t = Tiny({ck.params()[0]: Sym("secret"), ck.params()[1]: ticket}, default_call=default)
+            r = t.run([x for x in ck.node.body if not (isinstance(x, ast.Expr) and isinstance(x.value, ast.Constant))])
+            asked |= {a[1] for f_, a, k_ in [x for x in t.trace if len(x) == 3] if f_ == "compute_totp" and len(a) > 1}
+            want = which in (0, 1, -1)
+            if r[0] != "return" or bool(r[1]) != want or not isinstance(r[1], bool):
+                probs.append(f"ticket = {ticket}: check_totp gives {r}")
+        ctx.ob("check_totp accepts exactly the codes of the current and the two adjacent time steps and rejects everything else [6 cells]", not probs,
+               "; ".join(probs[:3]), ck.loc())
+    except AnalysisError as e:
+        raise AnalysisError(f"[C19.3-totp-formula] check_totp outside the modelled subset: {e}")
 
 
 # ------------------------------------------------------------------------------------------
@@ -419,13 +422,20 @@ def rule_cryptosign(ctx):
         raise AnalysisError("autobahn.wamp.cryptosign not found")
     inline = make_inline(ctx, {CS})
     fc = p.func(f"{CS}._format_challenge")
-    te, rets = ret_term(ctx, fc, inline)
-    ctx.require(len(rets) == 1, "_format_challenge: single return expected")
     ch = ("unhex", IDX(ATTR(P("challenge"), "extra"), "challenge"))
-    ref = ("phi", ("cmp", "==", P("channel_id_type"), C("tls-unique")), ("xor",) + tuple(sorted([ch, P("channel_id_raw")], key=repr)), ch)
-    expect(ctx, "cryptosign: signed message = challenge XOR channel id under 'tls-unique' binding, the raw challenge without binding", rets[0].term, ref, fc.loc())
-    other = [o for o in te.outcomes if o.kind == "raise" and any(canon(c) == ("cmp", "is", P("channel_id_type"), C(None)) and not pl for c, pl in o.conds)]
-    ctx.ob("cryptosign: an unknown channel binding type is refused, not signed unbound", bool(other), "no refusal for other channel_id_type values", fc.loc())
+    # by cases on the binding type (the order in which the code tests them is irrelevant)
+    for btype, want, label in (("tls-unique", ("xor",) + tuple(sorted([ch, P("channel_id_raw")], key=repr)), "challenge XOR channel id under 'tls-unique' binding"),
+                               (None, ch, "the raw challenge without binding")):
+        te_c = TermEval(p, fc, inline=inline, args={"channel_id_type": C(btype)}).run()
+        rets_c = [o for o in te_c.outcomes if o.kind == "return"]
+        if len(rets_c) == 1:
+            expect(ctx, f"cryptosign: signed message = {label}", rets_c[0].term, want, fc.loc())
+        else:
+            ctx.ob(f"cryptosign: signed message = {label}", False, f"{len(rets_c)} return paths for channel_id_type={btype!r}", fc.loc())
+    te_o = TermEval(p, fc, inline=inline, args={"channel_id_type": C("some-other-binding")}).run()
+    ctx.ob("cryptosign: an unknown channel binding type is refused, not signed unbound", not [o for o in te_o.outcomes if o.kind == "return"] and
+           bool([o for o in te_o.outcomes if o.kind == "raise"]), "a message is produced for an unknown channel_id_type", fc.loc())
+    te = TermEval(p, fc, inline=inline).run()
     lens = [o for o in te.outcomes if o.kind == "raise" and any(canon(c)[0] == "cmp" and canon(c)[1] == "!=" and C(64) in canon(c)[2:] and pl for c, pl in o.conds)]
     ctx.ob("cryptosign: a challenge that is not 64 hex digits (32 bytes) is refused", bool(lens), "length check missing", fc.loc())
     # xor helper
@@ -436,11 +446,28 @@ def rule_cryptosign(ctx):
     mf = MustFacts(gx, resolver=norm.Resolver(p, xf.module, None))
     lenraise = any(("eq", "len(d1)", ("e", "len(d2)"), False) in (mf.at(n) or ()) or ("eq", "len(d2)", ("e", "len(d1)"), False) in (mf.at(n) or ()) for n in rais)
     ctx.ob("util.xor refuses operands of different length", lenraise, "length check missing in xor()", xf.loc())
-    loops = [s for s in walk_no_defs(xf.node) if isinstance(s, ast.For)]
-    ok = len(loops) == 1 and norm.text(loops[0].iter) in ("range(len(d1))", "range(len(d2))") and len(loops[0].body) == 1 and \
-        isinstance(loops[0].body[0], ast.AugAssign) and isinstance(loops[0].body[0].op, ast.BitXor) and \
-        norm.text(loops[0].body[0].target) == f"d1[{norm.text(loops[0].target)}]" and norm.text(loops[0].body[0].value) == f"d2[{norm.text(loops[0].target)}]"
-    ctx.ob("util.xor XORs every byte position of d1 with the same position of d2", ok, "xor loop changed", xf.loc())
+    from ..core.tiny import Tiny, Sym
+    probs = []
+    try:
+        for n_ in (0, 1, 3):
+            d1 = [Sym(f"a{i}") for i in range(n_)]
+            d2 = [Sym(f"b{i}") for i in range(n_)]
+
+            def default(f_, a_, k_=None):
+                if f_ == "type":
+                    return "bytes"
+                if f_ == "array":
+                    return list(a_[1])
+                return Sym(f"<{f_}>")
+            t = Tiny({xf.params()[0]: list(d1), xf.params()[1]: list(d2), "bytes": "bytes"}, default_call=default)
+            r = t.run([x for x in xf.node.body if not (isinstance(x, ast.Expr) and isinstance(x.value, ast.Constant))])
+            okx = r[0] == "return" and isinstance(r[1], list) and len(r[1]) == n_ and \
+                all(isinstance(x, tuple) and x[0] == "xor" and {id(x[1]), id(x[2])} == {id(a), id(b)} for x, a, b in zip(r[1], d1, d2))
+            if not okx:
+                probs.append(f"operands of {n_} octets: result {r}")
+        ctx.ob("util.xor XORs every byte position of d1 with the same position of d2 [symbolic octets, lengths 0, 1, 3]", not probs, "; ".join(probs[:2]), xf.loc())
+    except AnalysisError as e:
+        raise AnalysisError(f"[C19.4-cryptosign-formula] util.xor outside the modelled subset: {e}")
     # _sign_challenge
     sc = p.func(f"{CS}._sign_challenge")
     ctx.analysed(sc)
@@ -561,6 +588,6 @@ def run(ctx):
     rule_gate(ctx)
     ctx.floor("C19.1-scram-formulas", 10)
     ctx.floor("C19.2-wampcra-formulas", 5)
-    ctx.floor("C19.3-totp-formula", 4)
+    ctx.floor("C19.3-totp-formula", 2)
     ctx.floor("C19.4-cryptosign-formula", 10)
     ctx.floor("C19.5-mutual-auth-gate", 7)
